@@ -125,7 +125,19 @@ func ruleColourBySign(c *core.Ctx, rule string) {
 			x.Hooks.Decide = func(x *absint.Exec, s *absint.State, atom string, outs []string) {
 				// the colour switch: a boolean field or parameter named after colour, wherever the reporter keeps it
 				// (r.config.Color, a private copy r.color, a parameter color)
-				if len(outs) != 1 || !strings.HasPrefix(atom, "b(§") {
+				if len(outs) != 1 {
+					return
+				}
+				// … or a field of a formatter held by value: b(field(f,"color"))
+				if strings.HasPrefix(atom, "b(field(") {
+					if i := strings.LastIndex(atom, `c:"`); i >= 0 {
+						if fld := strings.TrimSuffix(atom[i+3:], `"))`); colourNamed(fld) && !strings.Contains(fld, `"`) {
+							s.SetData("colour", map[string]string{"T": "on", "F": "off"}[outs[0]])
+						}
+					}
+					return
+				}
+				if !strings.HasPrefix(atom, "b(§") {
 					return
 				}
 				name := strings.TrimSuffix(strings.TrimPrefix(atom, "b(§"), ")")
@@ -486,7 +498,7 @@ func cmpParts(lit *ast.FuncLit) (string, token.Token, string, bool) {
 func init() {
 	register(&Property{
 		ID:    "C15",
-		Rules: []string{"C15-R1", "C15-R2", "C15-R3", "C15-R4", "C15-R5", "C15-R6", "C15-R7", "C15-R8", "C15-R9", "C15-R10", "C15-R11", "C06-R7", "C15-R12", "C15-R13", "C07-R5"},
+		Rules: []string{"C15-R1", "C15-R2", "C15-R3", "C15-R4", "C15-R5", "C15-R6", "C15-R7", "C15-R8", "C15-R9", "C15-R10", "C15-R11", "C06-R7", "C15-R12", "C15-R13", "C15-R14", "C05-R4", "C02-R10", "C07-R5", "C03-R2"},
 		Explain: "Decides that presentation switches are wired so that they cannot change numbers: C15-R1 the templates selectable through the same option show the same set of fields; C15-R3 every shorten width equals the width of the column the name is printed in; C15-R2 every colouring function, over colour on/off x sign(value), renders positive red, negative green, zero and colour-off plain, and stripped of escape sequences every rendering equals the plain one (same verb, same width); " +
 			"C15-R4 at the register's expansion sites what goes into the day's accumulator does not depend on totals-only (the switches gate lines only); C15-R5 each descending comparator is the ascending one mirrored; " +
 			"C15-R6 presentation flags declared on several levels (no-color) are read through the context lineage so either position works; " +
@@ -495,9 +507,10 @@ func init() {
 			"C15-R9 no package-level state (a template cache, a colour switch) is written while a command runs; " +
 			"C15-R10 every printf format in the tree is built from constants and constant padding, so no display mode can misprint a name that contains '%'; " +
 			"C15-R11 no string is cut at a computed byte position in the command packages (shortening is the rune-aware library's); " +
-			"C06-R7 (shared) no reporter or template function converts a date to the process time zone, so every template and the old reporter show the same day. C15-R12 the '=' column is exactly positive + negative register of one name (no rounding or scaling of the parts); C15-R13 every flag of a lineage level is asked for on every level of the context lineage. C07-R5 (shared) reporter selectors depend on the single-element request first.",
+			"C06-R7 (shared) no reporter or template function converts a date to the process time zone, so every template and the old reporter show the same day. C15-R12 the '=' column is exactly positive + negative register of one name (no rounding or scaling of the parts); C15-R13 every flag of a lineage level is asked for on every level of the context lineage. C15-R14 a function that cuts a name as runes compares rune counts, not byte lengths, with the width. C05-R4 and C02-R10 (shared) no state kept in package variables between days, no row dropped because of its amount: both show in one rendering and not in another. C07-R5 (shared) reporter selectors depend on the single-element request first. C03-R2 (shared) a chain helper answers with the empty list wherever the chain forks.",
 		NotDecided: "that two renderings contain the same digits, the interleaving claim, truncation arithmetic inside the truncate library",
 		Run: func(c *core.Ctx) {
+			ruleSentinel(c, "C03-R2") // collapse joins chains only; a chain that forks is printed level by level
 			ruleReporterSelection(c, "C07-R5", nil)
 			ruleNoFlagSkipped(c, "C15-R13")
 			ruleSumOfRegisters(c, "C15-R12")
@@ -511,7 +524,13 @@ func init() {
 			ruleGlobalState(c, "C15-R9")
 			ruleConstFormats(c, "C15-R10", nil)
 			ruleNoByteSlicing(c, "C15-R11")
+			ruleNoAmountSkips(c, "C02-R10", func(p string) bool { return strings.HasPrefix(p, core.CmdPath) })
+			ruleGlobalState(c, "C05-R4") // state kept between days in a package variable shows in one rendering and not in the other
+			ruleRuneWidths(c, "C15-R14", func(p string) bool { return strings.HasPrefix(p, core.CmdPath) })
 			ruleZoneAPIs(c, "C06-R7")
+		},
+		Canary: func(c *core.Ctx) {
+			ruleRuneWidths(c, "C15-R14", func(p string) bool { return strings.HasPrefix(p, "canary/") })
 		},
 	})
 }
@@ -591,4 +610,109 @@ func boundarySafe(v ssa.Value, depth int) bool {
 		return true
 	}
 	return false
+}
+
+// ruleRuneWidths is C15-R14: a function of the command packages that cuts a name as runes ([]rune(s) sliced at
+// computed positions) measures it as runes too: where it compares a length with a computed width, the length is
+// that of the rune slice (or a rune count), not len(s) of the string — bytes. A name that fits its column in
+// characters but not in bytes would otherwise be cut although it fits, with a prefix and suffix that overlap.
+func ruleRuneWidths(c *core.Ctx, rule string, inPkg func(string) bool) {
+	n := 0
+	for _, fn := range c.P.Funcs {
+		if !inPkg(core.FnPkgPath(fn)) {
+			continue
+		}
+		// strings converted to runes, and whether such a rune slice is cut at a computed position
+		converted := map[ssa.Value]bool{}
+		runes := map[ssa.Value]bool{}
+		for _, b := range fn.Blocks {
+			for _, in := range b.Instrs {
+				cv, ok := in.(*ssa.Convert)
+				if !ok {
+					continue
+				}
+				st, isSl := cv.Type().Underlying().(*types.Slice)
+				bt, isStr := cv.X.Type().Underlying().(*types.Basic)
+				if isSl && isStr && bt.Info()&types.IsString != 0 {
+					if et, ok := st.Elem().Underlying().(*types.Basic); ok && et.Kind() == types.Int32 {
+						converted[cv.X] = true
+						runes[cv] = true
+					}
+				}
+			}
+		}
+		if len(runes) == 0 {
+			continue
+		}
+		cuts := false
+		var byteCmp []*ssa.BinOp
+		runeCmp := false
+		lenOf := func(v ssa.Value) (ssa.Value, bool) {
+			call, ok := v.(*ssa.Call)
+			if !ok {
+				return nil, false
+			}
+			if b, ok := call.Call.Value.(*ssa.Builtin); ok && b.Name() == "len" && len(call.Call.Args) == 1 {
+				return call.Call.Args[0], true
+			}
+			if cal := core.Callee(&call.Call); cal != nil && (cal.String() == "unicode/utf8.RuneCountInString" || cal.String() == "unicode/utf8.RuneCount") {
+				return nil, true
+			}
+			return nil, false
+		}
+		for _, b := range fn.Blocks {
+			for _, in := range b.Instrs {
+				switch t := in.(type) {
+				case *ssa.Slice:
+					if runes[t.X] {
+						for _, bnd := range []ssa.Value{t.Low, t.High} {
+							if bnd == nil {
+								continue
+							}
+							if _, isC := bnd.(*ssa.Const); !isC {
+								cuts = true
+							}
+						}
+					}
+				case *ssa.BinOp:
+					switch t.Op {
+					case token.LSS, token.LEQ, token.GTR, token.GEQ:
+					default:
+						continue
+					}
+					for i, side := range []ssa.Value{t.X, t.Y} {
+						other := []ssa.Value{t.Y, t.X}[i]
+						if _, isC := other.(*ssa.Const); isC {
+							continue
+						}
+						arg, ok := lenOf(side)
+						if !ok {
+							continue
+						}
+						switch {
+						case arg == nil || runes[arg]:
+							runeCmp = true
+						case converted[arg]:
+							byteCmp = append(byteCmp, t)
+						}
+					}
+				}
+			}
+		}
+		if !cuts {
+			continue
+		}
+		n++
+		fname := core.FuncName(fn)
+		pos := c.P.Pos(fn.Pos())
+		c.Universe(rule+" functions that cut names as runes", fname+" ("+pos+")")
+		if len(byteCmp) > 0 && !runeCmp {
+			c.Violate(rule, fname, "width", c.P.Pos(byteCmp[0].Pos()), "the name is cut as runes but measured in bytes: len of the string is compared with the width and no length of the rune slice is: a name with multi-byte characters that fits its column in characters is cut although it fits, and the prefix and suffix kept can overlap or exceed the name", nil)
+		} else {
+			c.Discharge(rule, fname, "width", pos, "where a length is compared with a computed width it is a rune count")
+		}
+	}
+	if n == 0 {
+		c.Note(rule + ": no function of the command packages cuts a rune slice at a computed position (shortening is left to the truncate library)")
+	}
 }
